@@ -8,6 +8,8 @@
                                    the tree node of that name with that arity
       C10_sign / abs / roundings   sgn(0) = 0 and +-1 otherwise (NaN for NaN), |x|, floor ceil trunc round
                                    (ties away) are exact; C10_factorial_exact: n! in eval_i64 / eval_number
+      C10_i64_sqrt_within_1        eval_i64 sqrt(v) is the integer square root of v or one more, for every 0 <= v < 2^53
+                                   (Flocq: correctly rounded Bsqrt of the exact double, then truncation)
       C10_degree_constants         the constants of the postfix ° and rad are within 1e-17 / 2e-11 (3.1e-13 relative) of pi/180, 180/pi
                                    (Coq-Interval); C10_pi_e_nearest: pi and e are within half a unit in the last place of PI and exp 1
     Partial: that libm, num_complex, rust_decimal, the Lanczos gamma and the Lambert-W iteration are
@@ -18,7 +20,7 @@ From Coq Require Import List ZArith Reals Bool Lra Lia.
 From Flocq Require Import Core.Core IEEE754.BinarySingleNaN.
 From Interval Require Import Tactic.
 From SC Require Import Base.Res Base.F64 Base.RustInt Base.Oracle Base.Num Lang.Syntax Lang.Parser
-  Eval.EvalF64 Eval.EvalI64 Eval.EvalNum Gen.Tables Proofs.I64Facts Proofs.NumberFrom.
+  Eval.EvalF64 Eval.EvalI64 Eval.EvalNum Gen.Tables Proofs.I64Facts Proofs.NumberFrom Proofs.ISqrt.
 Import ListNotations.
 
 Theorem C10_conventions_f64 :
@@ -137,3 +139,14 @@ Proof.
 Qed.
 Print Assumptions C10_pi_e_nearest.
 
+
+Theorem C10_i64_sqrt_within_1 :
+  forall (L : libm) v, (0 <= v < 2 ^ 53)%Z ->
+    exists r, un_i64 L USqrt v = Ok r /\ (Z.sqrt v <= r <= Z.sqrt v + 1)%Z.
+Proof. exact isqrt_within_1. Qed.
+Print Assumptions C10_i64_sqrt_within_1.
+
+(** the bound is attained: sqrt(94906265^2 - 1) is 94906264.99999999473..., which rounds to the double 94906265 *)
+Example C10_i64_sqrt_off_by_one :
+  forall L : libm, un_i64 L USqrt 9007199136250224%Z = Ok 94906265%Z /\ Z.sqrt 9007199136250224 = 94906264%Z.
+Proof. intros. split; vm_compute; reflexivity. Qed.
